@@ -86,7 +86,8 @@ func (c *Case) Summary() string {
 	return s
 }
 
-var openCfgs = []fix.OpenCfg{{CacheCap: -1}, {Preload: true, CacheCap: -1}}
+// the third configuration names the file through a symbolic link (small files only)
+var openCfgs = []fix.OpenCfg{{CacheCap: -1}, {Preload: true, CacheCap: -1}, {CacheCap: -1, Via: fix.ViaRelLink}}
 
 // checkCrashFile is the oracle for one post-crash file: OpenIndex must reject
 // it with an error, or accept it and then answer like the complete index.
@@ -98,6 +99,9 @@ func checkCrashFile(dir string, content []byte, d *model.Data, uniq string, what
 		defer evid.ClearInflight(prop, "crash")
 	}
 	for _, oc := range openCfgs {
+		if oc.Via != fix.ViaPlain && len(content) > 1<<20 {
+			continue
+		}
 		// every crash file of a case is examined at ONE path, at which the
 		// complete index was opened before (see primePath): anything the process
 		// remembers about a path must not make a partial file acceptable
@@ -566,6 +570,15 @@ func run(t interface{ Fatalf(string, ...any) }, c *Case) {
 // dataset on both sides of the 1000-value / 1000-row batch sizes; all columns
 // always present (the CSV path needs rectangular data)
 func drawData(t *rapid.T, maxN int) gen.DataSpec {
+	if maxN >= 3100 && rapid.IntRange(0, 7).Draw(t, "largebitmaps") == 0 {
+		// a few bitmaps of more than a page (over 2048 scattered rows each)
+		// among thousands of one-row bitmaps, the total number of values a
+		// little below or above a multiple of the batch size
+		n := 1000*rapid.IntRange(5, 9).Draw(t, "thousands") + rapid.IntRange(-6, 3).Draw(t, "off")
+		return gen.DataSpec{Recipe: &gen.Recipe{N: n, Cols: []gen.ColSpec{
+			{Name: "a", Kind: gen.KMod, K: rapid.IntRange(2, 3).Draw(t, "klarge"), Prefix: "v"},
+			{Name: "u", Prefix: "r", Kind: gen.KUnique}}}}
+	}
 	n := rapid.SampledFrom([]int{0, 1, 2, 500, 999, 1000, 1001, 1001, 1002, 1002, 2001, 2001, 2500, 2500, 3100, 3100}).Draw(t, "n")
 	if n > maxN {
 		n = maxN
@@ -617,6 +630,14 @@ func prelude(t *testing.T) {
 		spec := gen.DataSpec{Recipe: &gen.Recipe{N: 75000, Cols: []gen.ColSpec{
 			{Name: "u", Prefix: "row-number-", Kind: gen.KUnique}, {Name: "a", Kind: gen.KMod, K: 7, Prefix: "v"}}}}
 		run(t, &Case{Data: spec, Mode: "commit-points", Writer: w})
+	}
+	// three bitmaps of more than a page among 1000k-3 .. 1000k+1 small ones
+	for _, n := range []int{6997, 6998, 6999, 7000, 7001} {
+		for _, w := range []int{fix.WMemFile, fix.WMemBolt} {
+			spec := gen.DataSpec{Recipe: &gen.Recipe{N: n, Cols: []gen.ColSpec{
+				{Name: "a", Kind: gen.KMod, K: 3, Prefix: "v"}, {Name: "u", Prefix: "r", Kind: gen.KUnique}}}}
+			run(t, &Case{Data: spec, Mode: "commit-points", Writer: w})
+		}
 	}
 	for _, n := range []int{0, 1, 1001, 2500} {
 		for w := 0; w < fix.NWriters; w++ {
